@@ -48,7 +48,7 @@ func writeManifest(path string) error {
 		"notes": "Technique family: static analysis only. Every claimed property is claimed at level 'other': the check decides structural necessary conditions of the property (listed in each evidence file's coverage.explanation) on every path / call site of the current /repo tree, not the behavioural property itself (coverage.not_decided). Exit codes: 0 held, 1 + VIOLATION line, 2 undecided (anchor missing, type error, unrecognised shape) without a VIOLATION line. Known findings: /verif/known_findings.json.",
 	}
 	var checks []check
-	var nas []na
+	nas := []na{}
 	for i := 1; i <= 20; i++ {
 		id := fmt.Sprintf("C%02d", i)
 		d := registry[id]
